@@ -320,6 +320,7 @@ class Interp:
             self.builtin_types[n] = BuiltinType(n)
         self.steps = 0
         self.gen_stack = []
+        self.consts = {}
         self.isinstance_hook = None   # fn(value, classval) -> bool | None
         self.attr_hook = None         # fn(obj, name) -> value | NotImplemented
         self.call_hook = None         # fn(interp, fval, args, kwargs, node) -> value | NotImplemented
@@ -1019,6 +1020,9 @@ class Interp:
                 return p
         if t is ast.BitOr and isinstance(a, dict) and isinstance(b, dict):
             return {**a, **b}
+        if t in (ast.FloorDiv, ast.Mod, ast.Div) and is_sym(b) and sym.kind(b) in ("int", "bool") and self._single_cellvar(b) is not None:
+            if self.decide_cmp("==", b, 0):
+                raise Raised(ExcVal("ZeroDivisionError"))
         if t not in BINOPS:
             if t is ast.Div:
                 if is_sym(a) or is_sym(b):
@@ -1151,7 +1155,10 @@ class Interp:
                 if sym.kind(item) == "int" and all(isinstance(x, int) for x in container):
                     # membership of an int atom in a finite set: fork per element is overkill; keep symbolic
                     return sym.op("in", item, tuple(container))
-            return sym.op("in", item, container if is_sym(container) else (tuple(container) if isinstance(container, (list, set, frozenset)) else container))
+            if isinstance(container, dict):
+                self.consts[id(container)] = container
+                return sym.op("in", item, sym.op("const", id(container)))
+            return sym.op("in", item, container if is_sym(container) else (tuple(sorted(container, key=repr)) if isinstance(container, (list, set, frozenset)) else container))
         try:
             return item in container
         except TypeError as ex:
@@ -1227,6 +1234,8 @@ class Interp:
         if is_sym(key):
             if isinstance(obj, (list, tuple)) and sym.kind(key) in ("int", "bool"):
                 return sym.op("select", tuple(obj), key)
+            if isinstance(obj, (list, dict)):
+                self.consts[id(obj)] = obj
             return sym.op("item", obj if not isinstance(obj, (list, dict)) else sym.op("const", id(obj)), key)
         try:
             return obj[key]
@@ -1801,6 +1810,11 @@ class Interp:
             return _struct.calcsize(*args)
         if d == "re.compile":
             return _re.compile(*args, **kwargs)
+        if d in ("re.fullmatch", "re.match", "re.search"):
+            if any(is_sym(a) for a in args):
+                return True if self.choose(("regexmatch", d, args[0], args[1])) else None
+            m = getattr(_re, d.split(".")[1])(*args, **kwargs)
+            return m
         if d == "re.escape":
             return _re.escape(*args)
         if d in ("re.I", "re.IGNORECASE"):
